@@ -414,6 +414,11 @@ QUERIES = [
     ("pruned_complete", "{ ... @defer(label: \"A\") { hero { pet { id name } } } ... @defer(label: \"B\") { hero { id ... @defer(label: \"D\") { pet { ... @defer(label: \"E\") { nn } } } } } }", "ok"),
     ("pruned_complete_lists", "{ ... @defer(label: \"A\") { hero { friends @stream(initialCount: 1, label: \"S\") { pet { id } } } } ... @defer(label: \"B\") { hero { friends @stream(initialCount: 1, label: \"S\") { ... @defer(label: \"D\") { pet { ... @defer(label: \"E\") { name } } } friends { name } } } } }", "ok"),
     ("pruned_complete_3", "{ hero { id } ... @defer(label: \"A\") { hero { pet { best { id } } } } ... @defer(label: \"B\") { hero { name ... @defer(label: \"D\") { pet { ... @defer(label: \"E\") { best { ... @defer(label: \"F\") { name } } } } } } } ... @defer(label: \"C\") { hero { pet { best { nn } } } } }", "ok"),
+    # a field shared by fragments at DIFFERENT paths; the deeper fragment fails through a field of its own
+    ("shared_diff_paths_fail", "{ ... @defer(label: \"B\") { hero { name } slow } hero { id ... @defer(label: \"A\") { name nn } } }", "hero_nn_fails"),
+    ("shared_diff_paths_fail_list", "{ ... @defer(label: \"B\") { hero { friends { name } } slow } hero { friends { id ... @defer(label: \"A\") { name nn } } } }", "hero_nn_fails"),
+    ("shared_diff_paths_fail_3", "{ a ... @defer(label: \"B\") { hero { name pet { id } } slow } ... @defer(label: \"C\") { hero { id ... @defer(label: \"A\") { name pet { id } nn } } } }", "hero_nn_fails"),
+    ("shared_diff_paths_ok", "{ ... @defer(label: \"B\") { hero { name } slow } hero { id ... @defer(label: \"A\") { name nn } } }", "ok"),
     ("same_path_two", "{ hero { ... @defer(label: \"A\") { name } ... @defer(label: \"B\") { name id pet { ... @defer(label: \"C\") { name } } } } }", "ok"),
 ]
 
@@ -769,7 +774,7 @@ def gen_graph(rng, max_groups=4, max_tasks=4, max_streams=2, wf=True):
             gs.append(g)
         if gs and rng.random() < 0.3:
             rng.shuffle(gs)  # children may be listed before parents
-        tcands = gs + (list(ptask_groups) if rng.random() < 0.4 else [])
+        tcands = gs + (list(ptask_groups) if rng.random() < 0.5 else [])
         nt = min(budget["t"], rng.randint(1 if (force or gs) else 0, 3)) if tcands else 0
         for _ in range(nt):
             budget["t"] -= 1
@@ -1162,7 +1167,7 @@ def part_wq(ck, m, tier):
             except Exception as e:  # noqa: BLE001
                 r = {"options": [], "harness_error": f"{type(e).__name__}: {e}"}
             return r
-        results, exh = explore_schedules(fn, per_graph, ck.rng)
+        results, exh = explore_schedules(fn, 250 if gi < len(corpus_graphs) else per_graph, ck.rng)
         ck.count("wq_graphs_all_orders_explored" if exh else "wq_graphs_orders_sampled")
         for dec, r in results:
             if "harness_error" in r:
@@ -1669,7 +1674,7 @@ def run(tier):
                "work in task results and stream items, children sometimes listed before parents) x event orders (DFS over all "
                "enabled choices of task success/failure, stream batch of 1/2/all+stop, stream end, stream failure, batches of 1-3 "
                "events, up to a per-graph run limit): real WorkQueue flattened events = model; real IncrementalPublisher payloads "
-               "= model publisher; payloads valid by extracted and Python validators.  (B) 23 @defer/@stream requests x "
+               "= model publisher; payloads valid by extracted and Python validators.  (B) 27 @defer/@stream requests x "
                "{sync, all async, mixed} resolvers x early execution {off,on} x completion orders (DFS, exhaustive when small): "
                "payload stream valid, targets exist when entries are applied in order.  (C) all well-formed StreamItemQueue scripts "
                "up to a length bound.  (D) the extracted explorer (all enabled event sequences up to a depth) on generated graphs.  "
